@@ -296,6 +296,9 @@ class Merge(Expr):
             s_method in ("tasks", "p2p")
             and self.how in ("inner", "left", "right", "leftsemi")
             and self.how != broadcast_side
+            # a semi join keeps every left row at most once: only the right
+            # side can be replicated
+            and not (self.how == "leftsemi" and broadcast_side == "left")
             and broadcast is not False
         ):
             n_low = min(self.left.npartitions, self.right.npartitions)
